@@ -266,6 +266,7 @@ pub fn property() -> Property {
     Property {
         id: "C08",
         subs: vec![sub::<Smooth>()],
+        fuzz: vec![],
         assumptions: vec![
             "the smoothed BDD only mentions variables among the first n_s levels (the documented precondition); n_s <= 8",
             "integer weights so that f64 results are exact and compared with ==",
